@@ -155,6 +155,9 @@ type sSource struct {
 	ackFail  bool
 	stopAfter int           // the harness asks for a stop once this many records were read
 	served    chan struct{} // closed when stopAfter records have been handed out
+	pauseAt   int           // >0: Read blocks before handing out record pauseAt until resume is closed
+	paused    chan struct{} // closed when the source reached pauseAt
+	resume    chan struct{}
 }
 
 func (s *sSource) ID() string           { return "src" }
@@ -182,6 +185,18 @@ func (s *sSource) Stop(context.Context) (opencdc.Position, error) {
 }
 func (s *sSource) Read(ctx context.Context) ([]opencdc.Record, error) {
 	s.w.mu.Lock()
+	if s.pauseAt > 0 && s.next == s.pauseAt && s.paused != nil {
+		p := s.paused
+		s.paused = nil
+		close(p)
+		s.w.mu.Unlock()
+		select {
+		case <-s.resume:
+		case <-ctx.Done():
+			return nil, ctx.Err()
+		}
+		s.w.mu.Lock()
+	}
 	if s.next < s.w.K && !s.stopped {
 		i := s.next
 		s.next++
@@ -248,6 +263,7 @@ type sDest struct {
 	w        *sWorld
 	id       string
 	writes   []int
+	versions []int // processor version stamped on each written record
 	acked    map[int]bool
 	nacked   map[int]bool
 	pending  chan opencdc.Record
@@ -300,6 +316,10 @@ func (d *sDest) Write(ctx context.Context, recs []opencdc.Record) error {
 			verifAssert(d.writes[len(d.writes)-1] < i, "c05-source-order-at-destination")
 		}
 		d.writes = append(d.writes, i)
+		if v, ok := r.Metadata["version"]; ok {
+			n, _ := strconv.Atoi(v)
+			d.versions = append(d.versions, n)
+		}
 	}
 	w.mu.Unlock()
 	for _, r := range recs {
@@ -409,6 +429,7 @@ type sCfg struct {
 	dlqFail        bool
 	srcAckFail     bool
 	stopAfter      int
+	pauseAt        int
 	procKinds      []int // nil: no processor node
 	parallel       int   // >0: wrap the processor in a ParallelNode with this many workers
 }
@@ -431,6 +452,9 @@ func buildPipeline(c sCfg) *sPipeline {
 	w.src = &sSource{w: w, stopCh: make(chan struct{}), ackFail: c.srcAckFail, stopAfter: c.stopAfter, served: make(chan struct{})}
 	if c.stopAfter == 0 {
 		close(w.src.served)
+	}
+	if c.pauseAt > 0 {
+		w.src.pauseAt, w.src.paused, w.src.resume = c.pauseAt, make(chan struct{}), make(chan struct{})
 	}
 	w.dlq = &sDLQ{w: w, written: map[int]int{}, fail: c.dlqFail}
 	logger := log.Nop()
